@@ -16,7 +16,8 @@ TECHNIQUE = ('explicit-state BFS over creation histories (sequences of wrapper /
 RULE = ('Use alphabet (13 requests differing from a base request in exactly one aspect: same-named other function, differently named '
         'function, two lambdas, injected task A/B, key result/other, positional/keyword, hard/soft, soft with task B, map with two same-named '
         'functions); factory alphabet (10 requests: extra args a/b, format kwargs, user name with args a/b, deps [A]/[B], soft deps, subprocess '
-        'args, second factory with the same name); statistics tasks with equal names; BFS over all histories of length <= 2 (thorough 3), '
+        'args, second factory with the same name); statistics tasks with equal names; every ordered pair of UseRun pipelines over 6 factories (generated / user-given name, different '
+        'default keywords or arguments) x call keywords x extra args, collected and executed; BFS over all histories of length <= 2 (thorough 3), '
         'state = multiset of requests made + cache keys; for every ordered pair of requests in a history: identical request => identical '
         'task object, different request => different objects or an explicit error at the later request, and each returned task executed with '
         'do() on a prepared environment yields what its own request computes (function, injected tasks, keys; for factory tasks the command '
